@@ -16,6 +16,12 @@
 #include "harness.h"
 int64_t w_format_duration(uint64_t usecs, uint32_t precision, uint8_t* out, uint64_t cap);
 
+#ifndef CHECK
+#define CHECK 0
+#endif
+#ifndef SHAPE_TIED /* 1: the number of integer digits of the seconds text follows the value; 0: any shape for any value */
+#define SHAPE_TIED (CHECK == 0)
+#endif
 enum { F_SEC = 1, F_M, F_HM, F_DHM };
 #define MAXCALL 3
 static struct {
@@ -58,7 +64,7 @@ uint32_t X_vasprintf(uint8_t* outp_, uint8_t* fmt_, uint8_t* va_) {
     double v = va_arg(va, double);
     rec[k].kind = F_SEC; rec[k].prec = p; rec[k].val = v;
     ASSERT(p >= 0 && p <= 6, "precision handed to printf in 0..6");
-#if CHECK == 0
+#if SHAPE_TIED
     ASSERT(v >= 0.0 && v < 60.0, "seconds value handed to printf in [0,60)");
 #endif
     ASSUME(p >= 0 && p <= 6);
@@ -67,7 +73,7 @@ uint32_t X_vasprintf(uint8_t* outp_, uint8_t* fmt_, uint8_t* va_) {
 #else
     int nint = (int)in_range(1, 2);
 #endif
-#if CHECK == 0
+#if SHAPE_TIED
     if (v < 9.0) ASSUME(nint == 1);
     if (v >= 10.0) ASSUME(nint == 2);
 #endif
@@ -98,9 +104,6 @@ uint32_t X_vasprintf(uint8_t* outp_, uint8_t* fmt_, uint8_t* va_) {
 }
 
 #define US 1000000ULL
-#ifndef CHECK
-#define CHECK 0
-#endif
 void harness(void) {
   uint64_t usecs = in_u64();
 #if MAG == 0
